@@ -33,6 +33,7 @@ type Config struct {
 	JSONWire     bool         // pass every message through encoding/json like the TCP transport
 	RefuseJoin   map[int]bool // the application refuses PEER_ADD of these key indexes
 	Liars        map[int]func(tick int) int64
+	CommitFault  map[int]map[int]bool // node → numbers of the commit calls that are applied but answered with an error
 	Skew         map[int]int64 // honest nodes whose clock is ahead (or behind) by a constant
 	WrapStore    func(idx int, s hg.Store) hg.Store
 	Maintenance  map[int]bool // nodes (re)started in maintenance mode
@@ -228,6 +229,7 @@ func (c *Cluster) startNode(i int, currentPeers []*peers.Peer, bootstrap bool, f
 		sn.Configured = append(sn.Configured, p.PubKeyString())
 	}
 	sn.App.StepFn = func() int { return c.Step }
+	sn.App.FailAfterApply = c.Cfg.CommitFault[i]
 	if len(c.Cfg.RefuseJoin) > 0 {
 		sn.App.Refuse = func(itx hg.InternalTransaction) bool {
 			if itx.Body.Type != hg.PEER_ADD {
